@@ -183,6 +183,34 @@ func setupScenario(root string, sc int) {
 	}
 }
 
+// existing lists, per scenario, names (relative to the target) that collide with a
+// pre-existing file, directory, the target itself, or pass through a file, with the old
+// contents where the object is a file.
+func existing(sc int) map[string]string {
+	switch sc {
+	case 0:
+		return map[string]string{".": ""}
+	case 1:
+		return map[string]string{".": "", "a": "old-a", "b": "", "b/a": "old-ba", ".h": "old-h", "a/x": "", "b/a/x": ""}
+	case 2, 3:
+		return map[string]string{"n": ""}
+	case 4:
+		return map[string]string{".": "i am a file", "x": "", "": "i am a file"}
+	case 5:
+		return map[string]string{".": "", "a": "", "a/a": "old-aa", "b": "old-b", "b/x": "", "a/a/x": ""}
+	}
+	return nil
+}
+
+// dataVariants: empty, equal to the old contents, shorter, longer, different
+func dataVariants(old string) [][]byte {
+	vs := [][]byte{{}, []byte(old), []byte(old + "+longer"), []byte("zz")}
+	if len(old) > 1 {
+		vs = append(vs, []byte(old[:len(old)/2]))
+	}
+	return vs
+}
+
 // dirArg returns the directory string handed to Write, the working directory to run
 // in ("" = unchanged) and whether the form is usable in the scenario.
 func dirArg(root string, sc, form int) (dir, cwd string, ok bool) {
@@ -323,6 +351,17 @@ func writeOracles(c wcase, r wresult) []string {
 			continue
 		}
 		add("write/contained")
+	}
+	// an entry whose target existed before the call (file or directory) must be an error
+	if r.res == "ok" {
+		for _, e := range c.Entries {
+			if strings.HasPrefix(e.Name, "/") || climbs(e.Name) {
+				continue
+			}
+			if _, existed := r.before[filepath.Join(targetRel, e.Name)]; existed {
+				add("write/existing-is-error")
+			}
+		}
 	}
 	// success implies no absolute and no climbing name
 	if r.res == "ok" {
@@ -864,7 +903,16 @@ func genEntries(r *common.RNG) []entry {
 		case 2:
 			name = strings.ReplaceAll(name, "/", "//")
 		}
-		es = append(es, entry{Name: name, Data: []byte(fmt.Sprintf("data%d\n", i))})
+		var data []byte
+		switch r.Intn(6) {
+		case 0: // empty
+			data = []byte{}
+		case 1: // equal to something that exists in some scenario
+			data = []byte(common.Pick(r, []string{"old-a", "old-ba", "old-b", "old-aa", "old-h", "i am a file", "sibling"}))
+		default:
+			data = []byte(fmt.Sprintf("data%d\n", i))
+		}
+		es = append(es, entry{Name: name, Data: data})
 	}
 	return es
 }
@@ -971,6 +1019,25 @@ func main() {
 			rn.writeCase(wcase{Scenario: (len(name) + form) % nScenarios, DirForm: form, Entries: []entry{{Name: name, Data: []byte("D")}}}, "exhaustive-dirforms")
 		}
 	})
+	// the same names with EMPTY data
+	enumerate(segSmall, 3, func(segs []string) {
+		name := strings.Join(segs, "/")
+		for sc := 0; sc < nScenarios; sc++ {
+			rn.writeCase(wcase{Scenario: sc, DirForm: 0, Entries: []entry{{Name: name, Data: []byte{}}}}, "exhaustive-empty-data")
+		}
+	})
+	// names colliding with what exists, with data empty / equal to / shorter / longer than
+	// the old contents, alone and after a fresh entry, under every way of naming the directory
+	for sc := 0; sc < nScenarios; sc++ {
+		for name, old := range existing(sc) {
+			for _, d := range dataVariants(old) {
+				for form := 0; form < nDirForms; form++ {
+					rn.writeCase(wcase{Scenario: sc, DirForm: form, Entries: []entry{{Name: name, Data: d}}}, "colliding")
+				}
+				rn.writeCase(wcase{Scenario: sc, DirForm: 0, Entries: []entry{{Name: "fresh", Data: []byte("f")}, {Name: "./" + name + "/", Data: d}}}, "colliding")
+			}
+		}
+	}
 	// absolute / slash variants of the short names
 	enumerate(segSmall, 2, func(segs []string) {
 		name := strings.Join(segs, "/")
